@@ -226,6 +226,8 @@ class Normalizer:
             return opt_case(x, lambda pl: ap(a[1], pl), ("const", 1))
         if is_("Option::unwrap_or") and n == 2:
             return opt_case(x, lambda pl: pl, a[1])
+        if is_("Option::unwrap_or_default") and n == 1:
+            return opt_case(x, lambda pl: pl, ("default",))
         if is_("Option::unwrap_or_else") and n == 2:
             return opt_case(x, lambda pl: pl, ap(a[1]))
         if is_("Option::map_or") and n == 3:
@@ -381,6 +383,44 @@ def contradictory(conds):
     return False
 
 
+def _has_gamma(t):
+    return flow.term_contains(t, lambda x: isinstance(x, tuple) and x and x[0] == "gamma")
+
+
+def _with_context(conds):
+    """the tests already decided in a row decide the selections on the same tests inside its other conditions"""
+    for _ in range(4):
+        facts = [(t, l) for t, l, f, w in conds if not _has_gamma(t)]
+        changed = False
+        out = []
+        for t, l, f, w in conds:
+            if not _has_gamma(t):
+                out.append((t, l, f, w))
+                continue
+            t2 = t
+            for ft, fl in facts:
+                t2 = flow._resolve_nested(t2, ft, fl)
+            t2 = flow.simplify_term(t2)
+            if t2 != t:
+                changed = True
+            r = norm_cond(t2, l)
+            if r is None:
+                return None
+            if r != [(t, l)]:
+                changed = changed or True
+            out += [(a, b, f, w) for a, b in r]
+        # drop duplicates, keep order
+        seen, ded = set(), []
+        for c in out:
+            if (c[0], c[1]) not in seen:
+                seen.add((c[0], c[1]))
+                ded.append(c)
+        conds = ded
+        if not changed:
+            break
+    return conds
+
+
 def rows(S, body, N=None, expand=True):
     """decision table of `body`: summary outcomes with values and conditions in normal form, selections flattened;
     expand=False keeps calls to workspace functions as calls (the table of this body alone)"""
@@ -409,9 +449,12 @@ def rows(S, body, N=None, expand=True):
                 extra += [(t2, l2, o.fn, "%s:%d" % (o.site[0].file, o.site[2])) for t2, l2 in r]
             if dead:
                 continue
-            allc = base + extra
-            if contradictory([(t, l) for t, l, f, w in allc]):
+            allc = _with_context(base + extra)
+            if allc is None or contradictory([(t, l) for t, l, f, w in allc]):
                 continue
+            for t, l, f, w in allc:
+                v2 = flow._resolve_nested(v2, t, l)
+            v2 = flow.simplify_term(v2)
             vp, _ = summary.variant_path(v2)
             out.append(summary.Outcome(vp, v2, allc, o.site, o.fn))
     return out
